@@ -85,7 +85,10 @@ def siteVsText (cls : Text) (s : Site) (t : Text) : Json :=
               ("shapeOk", .bool (match s.loc.shape with
                 | .gotFirst => true
                 | .gotLast => (splitLast sSemiGot rest).isSome
-                | .plain => true))]
+                | .plain => true)),
+              -- the problem text is an instance of typedpy's templates, placed where the shape says
+              ("problemOk", .bool (bodyHasTemplate s.loc.shape
+                (match s.loc.shape with | .gotFirst => (dropPre sGot rest).getD [] | _ => rest)))]
 
 def siteToJson (cls : Text) (s : Site) : Json :=
   Json.mkObj [("top", .str s.top), ("path", .str (ofText s.path)), ("shape", .str (shapeName s.loc.shape)),
